@@ -270,6 +270,16 @@ func c12Worker(line string) string {
 			return "ERROR hash"
 		}
 		seen[h] = true
+		if j.Runs > 1 {
+			// between two runs of the document, the same process generates ANOTHER document with every option the other way
+			// round (CORS, do-not-edit, client, base path): nothing of that run may show in the next one
+			if fd, err := os.MkdirTemp(j.Dir, "f"); err == nil {
+				o2 := j.Opts
+				o2.Cors, o2.DoNotEdit, o2.Client, o2.BasePath, o2.Package = !o2.Cors, !o2.DoNotEdit, !o2.Client, "/other/base", "foreign"
+				gen.Generate([]byte(c19SpecWith), fd, o2)
+				os.RemoveAll(fd)
+			}
+		}
 	}
 	var hs []string
 	for h := range seen {
